@@ -453,12 +453,12 @@ def build_item(repo, ext, unit_path):
         for nm in ext.fns:
             if nm not in fn_spans:
                 raise AnchorLost('method %s not found in %s' % (nm, ext.anchor))
-    elif ext.anchor.startswith('fn'):
+    elif ext.anchor.startswith('fn') or ext.anchor.startswith('top fn'):
         fs = re.search(r'\bfn\b', text).start()
         parts = fn_parts(text, code, fs)
         fe = len(text)
         scopes = [(ext.top, (0, fs, fe, parts))]
-        fn_spans[ext.anchor.split()[1]] = (0, fs, fe, parts)
+        fn_spans[ext.anchor.split()[-1]] = (0, fs, fe, parts)
     else:
         scopes = []
     inserted = []
@@ -511,7 +511,7 @@ def build_item(repo, ext, unit_path):
             edits.append((ks, ks, '#[verifier::external_body] /* CONTRACT-ONLY (T8): body verified in its own unit */ '))
             edits.append((bs + 1, be, ' unimplemented!() '))
             inserted.append(('T8', ann.name))
-            t8_fns.add(ann.name or ext.anchor.split()[1])
+            t8_fns.add(ann.name or ext.anchor.split()[-1])
             t8_spans.append((origin[bs], origin[be]))
         elif parts['has_body']:
             bs = parts['end_sig']
@@ -542,7 +542,7 @@ def build_item(repo, ext, unit_path):
                 if idx < 0 or text.find(ctext, idx + 1, be) >= 0:
                     # the annotated closure is gone: verify without the annotation; a failure of this
                     # function is then only believed with a concrete witness (driver.py)
-                    lost.append({'fn': ann.name or ext.anchor.split()[1], 'what': 'closure ' + ctext})
+                    lost.append({'fn': ann.name or ext.anchor.split()[-1], 'what': 'closure ' + ctext})
                     continue
                 m = re.match(r'(move\s+)?\|[^|]*\|\s*', ctext)
                 if not m:
@@ -559,7 +559,7 @@ def build_item(repo, ext, unit_path):
                         mm = m
                         break
                 if mm is None:
-                    lost.append({'fn': ann.name or ext.anchor.split()[1], 'what': 'proof hint at ' + rx})
+                    lost.append({'fn': ann.name or ext.anchor.split()[-1], 'what': 'proof hint at ' + rx})
                     continue
                 first = lines[0][1].strip()
                 if not (first.startswith('proof {') or first.startswith('assert')):
